@@ -179,7 +179,7 @@ def run_case(case):
                 stack.append(base + [a])
         if paths > 60000:
             return result(False, sig="HARNESS", msg=f"{label}: more than 60000 trajectories", outcome="harness")
-    if abs(mass + cut - 1.0) > 1e-9:
+    if not abs(mass + cut - 1.0) <= 1e-9:  # NaN fails
         return result(False, sig="HARNESS", msg=f"{label}: explored mass {mass} + cut mass {cut} != 1", outcome="harness")
     # reference
     ops, _, d, _ = noise_ref.collapse_ops_for(seq, nm)
@@ -193,13 +193,13 @@ def run_case(case):
         err = np.abs(avg - exact * 1.0).max()
         worst = max(worst, err)
         # the average over the explored mass underestimates by at most (1 - m): compare avg with exact allowing that slack
-        if err > tol:
+        if not err <= tol:  # NaN fails
             sig = f"average|{case['name']}|occupation"
             return result(False, sig=sig, msg=f"{label}: trajectory average of the occupation at t={t} is {np.round(avg, 5).tolist()} (explored mass {mass:.4f}, {paths} trajectories) but the Lindblad equation gives {np.round(exact, 5).tolist()}; |diff| {err:.2e} > {tol:.2e}", outcome=["avg", sig], states=paths, transitions=draws)
     exact = ref.observables(1.0)["correlation_matrix"]
     err = np.abs(acc["corr"] - exact).max()
     worst = max(worst, err)
-    if err > tol:
+    if not err <= tol:  # NaN fails
         sig = f"average|{case['name']}|correlation"
         return result(False, sig=sig, msg=f"{label}: trajectory average of the correlation matrix differs from the Lindblad value by {err:.2e} > {tol:.2e} (mass {mass:.4f})", outcome=["avg", sig], states=paths, transitions=draws)
     return result(True, outcome=["ok", paths, round(mass, 4), rnd(acc[("occ", 1.0)], 3)], states=paths, transitions=max(draws, 1), nontrivial=with_jump > 0, extra={"paths": paths, "mass": mass, "worst": worst, "with_jump": int(with_jump)})
